@@ -13,10 +13,15 @@ NATIVE_Q = [("dbg", 1.0)]
 NATIVE_QR = [("dbg", 1.0), ("rel", 1.0)]
 NATIVE_T = [("dbg", 1.0), ("rel", 1.0)]
 
+
+def deep(d):
+    """thorough tier, native modes: size bounds of the thorough sweeps, d times the random cases"""
+    return [("dbg", (1.0, d)), ("rel", (1.0, d))]
+
 PROPS = {
     "C01": dict(
         bin="c01", features=["fdiff"],
-        quick=NATIVE_Q, thorough=NATIVE_T,
+        quick=NATIVE_Q, thorough=deep(8),
         floors={"value.ts_vsum": 100, "value.ts_kurt": 100, "value.ts_vfdiff": 50, "value.ts_fdiff": 50,
                 "null.ts_vstd": 100, "long_histories": 1},
         rule="sweep (len 0..N x window 1..len+2 x min_periods {None,0..w} x 10 null patterns, exact-grid value classes) "
@@ -28,21 +33,22 @@ PROPS = {
     "C02": dict(
         bin="c02", features=["polars"],
         quick=[("dbg", 1.0), ("rel", 1.0), ("miri", 0.7)],
-        thorough=[("dbg", 1.0), ("rel", 1.0), ("miri", 1.0), ("mirirel", 1.0), ("asan", 0.5)],
+        thorough=deep(4) + [("miri", 1.0), ("mirirel", 1.0), ("asan", (0.5, 2))],
         floors={"ok.rolling_apply": 100, "ok.rolling_apply_idx": 100, "ok.rolling2_apply": 100, "ok.rolling2_apply_idx": 100,
                 "ok.rolling_custom": 100, "ok.rolling2_custom": 50, "ok.rolling_custom_iter": 50, "okpath.To": 50, "okpath.Buf": 50,
-                "injected_panics_propagated": 50, "unspecified_removal_positions": 10, "spyout.buffers_verified": 50},
+                "injected_panics_propagated": 50, "unspecified_removal_positions": 10, "spyout.buffers_verified": 50,
+                "second_series_longer": 20},
         technique="runtime monitoring: online trace automaton over a recording callback (unique-id elements), Miri/ASan on the same executions",
         rule="len 0..N x window 1..len+3 x {recording, stateful (order-sensitive checksum), panicking-at-k} callbacks x 7 driver entry "
              "points and their *_to forms x {returned, caller buffer via entry point, direct *_to} x backends (Vec, VecDeque rotated, "
              "Array1, strided/reversed ArrayView1, Arc<Vec>, Arc<Array1>, OptIter, SpyVec, SpyVecFast, polars 1-3 chunks) x output containers "
-             "(Vec, VecDeque, Array1, SpyOut exactly-once, polars where collectable). Input elements are unique ids 1000+i / 2000+i; "
+             "(Vec, VecDeque, Array1, SpyOut exactly-once, polars where collectable). Input elements are unique ids 1000+i / 2000+i, the second series 0-2 elements longer than the first; "
              "the automaton accepts a call iff it is for the next position with the prescribed removed/start/slice arguments; "
              "output[i] must hold the result of call i. distinct = (driver, backend->output, len, window, path, callback kind)",
     ),
     "C03": dict(
         bin="c03",
-        quick=NATIVE_Q, thorough=NATIVE_T,
+        quick=NATIVE_Q, thorough=deep(8),
         floors={"value.ts_vmin": 100, "value.ts_vargmax": 100, "value.ts_vrank[pct=1,rev=1]": 100, "value.ts_vzscore": 50,
                 "value.ts_vminmaxnorm": 50, "spy.rescans_observed": 50, "state.extreme_expired": 50,
                 "state.extreme_expired_newest_null": 5, "state.all_null_window": 20, "state.tied_extreme": 50,
@@ -56,7 +62,7 @@ PROPS = {
     ),
     "C04": dict(
         bin="c04",
-        quick=NATIVE_Q, thorough=NATIVE_T,
+        quick=NATIVE_Q, thorough=deep(8),
         floors={"value.ts_vcov": 100, "value.ts_vcorr": 100, "value.ts_vregx_beta": 100, "value.ts_vregx_resid_std": 50,
                 "value.ts_vregx_resid_skew": 20, "value.ts_vregx_all.2": 50, "value.ts_vreg_resid_mean": 50, "value.ts_vtsf": 100,
                 "perfect_linear_series": 5, "long_histories": 1},
@@ -68,7 +74,7 @@ PROPS = {
     ),
     "C05": dict(
         bin="c05", features=["polars"],
-        quick=NATIVE_Q, thorough=NATIVE_T,
+        quick=NATIVE_Q, thorough=deep(3),
         floors={"empty_input_cases": 10, "null.ts_vkurt": 100, "value.ts_vkurt": 100, "null.ts_vcov": 100, "value.ts_vregx_all.2": 50,
                 "backend.polars<f64>": 20, "backend.deque<f64>": 20, "backend.arrayview1<f64>": 20, "backend.arc<array1<f64>>": 20,
                 "backend.optiter(vec<f64>)": 20, "deque_wrapped": 10},
@@ -81,7 +87,7 @@ PROPS = {
     ),
     "C06": dict(
         bin="c06",
-        quick=NATIVE_Q, thorough=NATIVE_T,
+        quick=NATIVE_Q, thorough=deep(20),
         floors={"prefix_pairs": 1000, "prefix_ok.ts_vkurt": 10, "prefix_ok.ts_vregx_resid_skew": 5, "prefix_ok.vdiff": 10,
                 "prefix_ok.vpct_change": 10, "prefix_ok.shift": 10, "history_ok.ts_vmin": 10, "history_ok.ts_vstd": 10,
                 "history_ok.ts_vcorr": 5, "history_positions": 1000},
@@ -95,7 +101,7 @@ PROPS = {
     "C07": dict(
         bin="c07", features=["polars"],
         quick=[("dbg", 1.0), ("rel", 1.0)],
-        thorough=[("dbg", 1.0), ("rel", 1.0), ("miri", 1.0), ("asan", 0.5)],
+        thorough=deep(3) + [("miri", 1.0), ("asan", (0.5, 2))],
         floors={"cells_equal": 10000, "map_cells_equal": 1000, "accessors.deque": 20, "accessors.arrayview1(step-1)": 5,
                 "accessors.arrayview1(step3)": 5, "deque_wrapped": 10, "try_as_slice_offered": 10, "spyout.buffers_verified": 100},
         technique="runtime monitoring: differential matrix monitor (every cell vs the Vec->Vec reference cell, bit for bit) + accessor coherence checks; Miri/ASan on the non-polars cells",
@@ -109,7 +115,7 @@ PROPS = {
     ),
     "C08": dict(
         bin="c08",
-        quick=NATIVE_Q, thorough=NATIVE_T,
+        quick=NATIVE_Q, thorough=deep(8),
         floors={"reencode_ok.input=Option<f64>": 1000, "reencode_ok.output=Option<i32>": 500, "reencode_ok.output=f32": 500,
                 "map_reencode_ok": 1000, "insertion_ok": 1000, "insertion_ok.vquantile": 50, "insertion_ok.vcorr_pearson": 50,
                 "insertion_ok.vargmax": 50, "insertion_ok.vkurt": 50},
@@ -124,24 +130,25 @@ PROPS = {
     "C09": dict(
         bin="c09", features=["polars"],
         quick=[("dbg", 1.0), ("rel", 1.0), ("miri", 1.0), ("mirirel", 1.0), ("asan", 0.5)],
-        thorough=[("dbg", 1.0), ("rel", 1.0), ("miri", 1.0), ("mirirel", 1.0), ("asan", 0.5), ("vg", 0.05)],
+        thorough=deep(4) + [("miri", 1.0), ("mirirel", 1.0), ("asan", (0.5, 2)), ("vg", 0.05)],
         floors={"subjects.shift": 50, "subjects.vshift": 50, "subjects.vdiff": 50, "subjects.vpartition": 50, "subjects.varg_partition": 50,
                 "subjects.vcut": 20, "subjects.winsorize": 5, "subjects.rolling_custom_iter": 10, "subjects.pipeline": 100,
-                "partial_probes_ok": 500, "collectors_ok": 500, "titer_ok": 20, "generators_ok": 20},
+                "partial_probes_ok": 500, "nth_probes_ok": 500, "collectors_ok": 500, "titer_ok": 20, "generators_ok": 20},
         technique="runtime monitoring: conservation monitor (announced = yielded at every probe point) + hook H1 in the raw collectors; Miri (dev and release-like), ASan, memcheck on the un-hooked collectors",
         rule="every trusted-length iterator the library hands out: titer() of each backend (front/back partial consumption), shift / vshift / "
              "vdiff / vpct_change over lags -len-3..=len+3 and i32::MIN/MAX, ffill / bfill / fill / abs / vabs / vclip (5 bound shapes), "
              "vpartition / varg_partition k in 0..=len+2 x sort x rev, winsorize (3 methods), rolling_custom_iter w in 1..=len+2, vcut over "
              "bins 0..3 x labels 0..4 x flags, range / linspace through the collecting constructors, and random pipelines of depth 1..6 "
              "(library adaptors + std map/take/chain/zip/enumerate/step_by) over Box<dyn TrustedLen>. size_hint().1 is compared with the "
-             "number of items obtained by safe iteration before consumption and after every partial consumption; then "
+             "number of items obtained by safe iteration before consumption, after every partial consumption by next() and after "
+             "nth(j) for j around the end; then "
              "collect_trusted_vec1 into Vec / VecDeque / Array1 / polars must reproduce the safely iterated content. distinct = (subject, "
              "yielded length, parameters)",
     ),
     "C10": dict(
         bin="c10",
         quick=[("dbg", 1.0), ("rel", 1.0), ("miri", 0.7), ("mirirel", 0.7), ("asan", 0.3)],
-        thorough=[("dbg", 1.0), ("rel", 1.0), ("miri", 1.0), ("mirirel", 1.0), ("asan", 0.5), ("vg", 0.05)],
+        thorough=deep(2) + [("miri", 1.0), ("mirirel", 1.0), ("asan", 0.5), ("vg", 0.05)],
         floors={"spy.ugets": 10000, "spy.uslices": 10, "spyout.buffers_verified": 1000, "spyout.usets": 10000, "defined_results": 1000,
                 "cases.window0": 5, "cases.second_series_shorter": 5, "kernel_defined_results": 500, "string_driver_ok": 50,
                 "string_driver_injected_panics": 20},
@@ -155,7 +162,7 @@ PROPS = {
     ),
     "C11": dict(
         bin="c11",
-        quick=NATIVE_Q, thorough=NATIVE_T,
+        quick=NATIVE_Q, thorough=deep(8),
         floors={"ok.vkurt": 200, "null.vkurt": 50, "ok.vcorr_pearson": 200, "ok.vargmax": 200, "ok.n_vsum_filter.sum": 100, "ok.argmin": 50,
                 "ok.vany": 100, "permutation_ok": 500, "null.vvar": 20},
         rule="len 0..N x 10 null patterns x min_periods 0..6 (sweep, all degenerate sizes n=0..4) + random len<=200, 14 value classes "
@@ -168,7 +175,7 @@ PROPS = {
     "C12": dict(
         bin="c12",
         quick=[("dbg", 1.0), ("rel", 1.0), ("miri", 0.6)],
-        thorough=[("dbg", 1.0), ("rel", 1.0), ("miri", 1.0), ("asan", 0.5)],
+        thorough=deep(4) + [("miri", 1.0), ("asan", (0.5, 2))],
         floors={"quantile_ok": 500, "quantile_ok_integer_index": 100, "quantile_null_ok": 20, "quantile_err_ok": 20, "percentile_ok": 500,
                 "rank_ok": 200, "partition_ok": 500, "arg_partition_ok": 500, "single_valid_not_first": 3},
         rule="len 0..N x 10 null patterns (incl. 'the only valid element not in first position') x value classes with heavy ties + "
@@ -182,7 +189,7 @@ PROPS = {
     "C13": dict(
         bin="c13",
         quick=[("dbg", 1.0), ("rel", 1.0), ("miri", 0.6)],
-        thorough=[("dbg", 1.0), ("rel", 1.0), ("miri", 1.0), ("mirirel", 1.0), ("asan", 0.5)],
+        thorough=deep(4) + [("miri", 1.0), ("mirirel", 1.0), ("asan", (0.5, 2))],
         floors={"ok.shift": 500, "ok.vshift": 500, "ok.vdiff": 500, "ok.vpct_change": 500, "ok.ffill": 50, "ok.bfill": 50, "ok.fill": 30,
                 "ok.vclip": 100, "ok.vabs": 30, "clip_idempotent_ok": 50},
         rule="len 0..N x 10 null patterns + random len<=60 (with zero bases); lags -len-3..=len+3 and i32::MIN/MAX; fill null / 0 / "
@@ -193,7 +200,7 @@ PROPS = {
     ),
     "C14": dict(
         bin="c14",
-        quick=NATIVE_QR, thorough=NATIVE_T,
+        quick=NATIVE_QR, thorough=deep(40),
         floors={"cut_label_ok": 1000, "cut_null_ok": 50, "cut_outside_err_ok": 100, "cut_label_mismatch_err_ok": 100, "cut_extreme_cases": 20,
                 "cut_label_ok_i32": 200, "ok.vsorted_unique_idx(First)": 200, "ok.vsorted_unique_idx(Last)": 200, "ok.vsorted_unique": 200},
         rule="vcut: ascending edge vectors of size 0..5 x label counts 0..6 x {right, left closed} x {open outer bounds, none}; values "
@@ -218,7 +225,7 @@ PROPS = {
     ),
     "C16": dict(
         bin="c16",
-        quick=NATIVE_QR, thorough=NATIVE_T,
+        quick=NATIVE_QR, thorough=deep(60),
         floors={"unit_conversions_ok": 2000, "nat_conversions_ok": 50, "calendar_agreements": 500, "finer_and_back_ok": 300,
                 "calendar_roundtrips_ok": 500, "nat_absorbed_ok": 200, "nat_calendar_none_ok": 10},
         technique="runtime monitoring: reference-model oracle (i128 floor arithmetic and the chrono calendar) over recorded conversions and operations",
@@ -230,8 +237,8 @@ PROPS = {
     ),
     "C17": dict(
         bin="c17",
-        quick=NATIVE_QR, thorough=NATIVE_T,
-        floors={"ok.add_then_sub": 1000, "ok.difference_added_back": 1000, "ok.add_months": 500, "ok.td_associative": 500,
+        quick=NATIVE_QR, thorough=deep(30),
+        floors={"ok.add_then_sub": 1000, "ok.difference_added_back": 1000, "ok.add_months": 500, "ok.sub_months": 500, "ok.td_associative": 500,
                 "ok.td_scale_distributes_over_add": 500, "ok.time_components": 500, "ok.time_chrono_roundtrip": 500,
                 "ok.time_shift_exact": 500, "ok.trunc_month_free": 300, "ok.trunc_months": 500, "ok.nat_operands": 100},
         technique="runtime monitoring: law checkers over generated operations with chrono / i128 arithmetic as reference model",
@@ -244,7 +251,7 @@ PROPS = {
     ),
     "C18": dict(
         bin="c18",
-        quick=NATIVE_QR, thorough=NATIVE_T,
+        quick=NATIVE_QR, thorough=deep(10),
         floors={"class.corpus": 30, "class.corpus_insert": 500, "class.duration_grammar": 1000, "class.duration_mutated": 1000,
                 "class.datetime_grammar": 1000, "class.datetime_mutated": 1000, "class.random_unicode": 1000, "total.ok_results": 500,
                 "total.err_results": 5000, "wellformed.ok": 2000, "roundtrip.default_ok": 500, "roundtrip.listed_ok": 2000},
@@ -260,7 +267,7 @@ PROPS = {
     "C19": dict(
         bin="c19",
         quick=[("dbg", 1.0), ("rel", 1.0), ("miri", 1.0)],
-        thorough=[("dbg", 1.0), ("rel", 1.0), ("miri", 1.0), ("mirirel", 1.0), ("asan", 0.5), ("vg", 0.1)],
+        thorough=deep(10) + [("miri", 1.0), ("mirirel", 1.0), ("asan", 0.5), ("vg", 0.1)],
         floors={"range_int_ok.non_divisible_span": 50, "range_int_ok.empty_span": 50, "range_int_ok.divisible_span": 50,
                 "range_float_ok": 200, "linspace_ok": 50, "full_empty_ok": 10, "collect_ok": 100, "collect_opt_ok": 5,
                 "first_error_ok": 50, "write_ok": 10, "write_len_mismatch_err_ok": 10, "write_real_ok": 10, "checked_set_ok": 3},
@@ -274,7 +281,7 @@ PROPS = {
     ),
     "C20": dict(
         bin="c20",
-        quick=NATIVE_QR, thorough=NATIVE_T,
+        quick=NATIVE_QR, thorough=deep(20),
         floors={"winsorize_ok.quantile": 200, "winsorize_ok.median": 200, "winsorize_ok.sigma": 200, "winsorize_clipped.quantile": 50,
                 "winsorize_clipped.median": 50, "winsorize_clipped.sigma": 50, "spearman_ok": 300, "spearman_invariance_ok": 100,
                 "half_life_in_range": 300, "half_life_value_ok": 30},
